@@ -239,6 +239,47 @@ class Grid:
             for name, mk, py in cases:
                 self.record(["call", name, canon(a), canon(b), canon(c)], outcome(lambda: mk()._get_value()), outcome(py), False)
 
+    def ternary(self, sample=None):
+        """Two nested binary nodes, both groupings, over operand triples that include arrays of different
+        dtype / shape and sequences: `(a op1 b) op2 c` and `a op1 (b op2 c)` must be what Python computes
+        from the operand values (type, dtype and shape included), and no operand may be modified."""
+        r, d = self.r, self.d
+        vals = [1, 2.5, True, np.int64(3), np.float32(0.5), np.array([1, 2]), np.array([1.0, 2.0]),
+                np.array([0.5, 1.5], dtype=np.float32), np.array([[1, 2], [3, 4]]), np.array([[0.5, 1.5]]),
+                [1, 2], (3, 4), "ab"]
+        pairs = [("add", "add"), ("mul", "mul"), ("sub", "sub"), ("add", "mul"), ("mul", "add"), ("add", "sub"),
+                 ("sub", "add"), ("truediv", "mul"), ("and", "or"), ("or", "or")]
+        snap = lambda: (canon(d["a"]), canon(d["b"]), canon(d["n"]["x"]))
+        for n1, n2 in pairs:
+            f1, f2 = BINOPS[n1], BINOPS[n2]
+            nan_ok = n1 in P.ZERO_DIV_NAN or n2 in P.ZERO_DIV_NAN
+            for a, b, c in itertools.product(vals, repeat=3):
+                if sample is not None and sample.random() > 0.25:
+                    continue
+                import copy as _copy
+                d["a"], d["b"], d["n"]["x"] = _copy.deepcopy(a), _copy.deepcopy(b), _copy.deepcopy(c)
+                before = snap()
+                for shape in ("L", "R"):
+                    if shape == "L":
+                        py = lambda: f2(f1(_copy.deepcopy(a), _copy.deepcopy(b)), _copy.deepcopy(c))
+                        mk = lambda: f2(f1(r["a"], r["b"]), r["n"]["x"])
+                    else:
+                        py = lambda: f1(_copy.deepcopy(a), f2(_copy.deepcopy(b), _copy.deepcopy(c)))
+                        mk = lambda: f1(r["a"], f2(r["b"], r["n"]["x"]))
+                    want = outcome(py)
+                    if want[0] == "exc" and want[1] == "ZeroDivisionError":
+                        continue
+                    got = outcome(lambda: mk()._get_value())
+                    self.counters["ternary_cases_compared"] = self.counters.get("ternary_cases_compared", 0) + 1
+                    self.record(["ternary", n1, n2, shape, canon(a), canon(b), canon(c)], got, want, False)
+                    if snap() != before:
+                        if len(self.violations) < 12:
+                            self.violations.append({"what": "C04 ternary %s/%s %s: evaluating the expression modified an operand: %s -> %s" % (
+                                n1, n2, shape, before, snap())})
+                        d["a"], d["b"], d["n"]["x"] = _copy.deepcopy(a), _copy.deepcopy(b), _copy.deepcopy(c)
+            if len(self.violations) >= 12:
+                break
+
     def access(self):
         """Item and attribute access with constant and computed keys, nested."""
         r, d = self.r, self.d
@@ -385,6 +426,7 @@ def run_shard(spec):
         if spec["ops"] == "even":
             g.unary_builtins_calls()
             g.access()
+            g.ternary()
         else:
             inplace_grid(counters, digests, violations, samples)
         counters["exhaustive"] = True
@@ -393,6 +435,7 @@ def run_shard(spec):
         g.binary("all", sample=rng)
         g.unary_builtins_calls()
         g.access()
+        g.ternary(sample=rng)
         inplace_grid(counters, digests, violations, samples, sample=rng)
     else:
         trees(spec, rng, counters, digests, violations, samples)
